@@ -393,7 +393,18 @@ def r04i(ctx):
     if not subs:
         ctx.proved("R04i", b.file, "EditCollection.bounds", b.node, "improvement subtraction", "no improvement is subtracted from the cap")
         return
+    from .. import pat as _pat
     for a in subs:
+        exact = _pat.match(_pat.parse_stmts("T.upper_bound -= E.initial_bounds.upper_bound - E.bounds().upper_bound")[0], a, {})
+        lower = [x for x in walk_no_nested(b.node) if isinstance(x, ast.AugAssign) and isinstance(x.op, ast.Add)
+                 and ast.unparse(x.target).endswith(".lower_bound")]
+        lower_ok = any(_pat.match(_pat.parse_stmts("T.lower_bound += E.bounds().lower_bound")[0], x, {}) for x in lower)
+        if not exact or not lower_ok:
+            ctx.violation("R04i", b.file, "EditCollection.bounds", a, "improvement term",
+                          f"`{norm(a, 90)}`" + ("" if lower_ok else " / the lower-bound accumulation") + " is not the pair (lower += child's "
+                          f"lower bound; upper -= child's initial upper - child's CURRENT UPPER): the partially expanded interval then "
+                          f"treats an inexact child as if it had already converged, drops below the true cost and widens again when "
+                          f"the sub-edit iterator is exhausted ([0,69] -> [0,9] -> [1,60])")
         if cap_from_sizes:
             ctx.violation("R04i", b.file, "EditCollection.bounds", a, "improvement subtraction",
                           f"`{norm(a, 90)}` lowers the cap by a child's improvement, but the cap is from_node.total_size + to_node.total_size "
